@@ -66,6 +66,16 @@ CHECKS = {
             "whatever decodes must re-encode to the consumed bytes and carry id = sha256d(canonical encoding); 1,060 grid values "
             "of all consensus and wire types round-trip field by field; ids of objects read back from a BlockStore.",
             "The space of byte strings is unbounded; what is complete is the stated mutation families.", "DESIGN.md section 4, C07"),
+    'C08': (MC, "explicit-state search over write histories x every flush batching x restart after every flush, on the real "
+                "BlockStore file and the real read_chain_from_disk",
+            "All block-tree write histories over the payload menu (forks including the same pending transaction, the same "
+            "reward transaction, spends that differ between forks, multi-input/multi-output) up to 3 (quick) / 4 blocks beyond "
+            "a 2-block prefix, under every composition of the writes into flush batches; after every flush a new BlockStore on "
+            "the same file and read_chain_from_disk: same ids, byte-identical blocks, parent before child, rebuilt unspent set "
+            "at every block and head height equal to the pre-restart ones. One recorded defect (shared transaction across "
+            "stored blocks) is reported as KNOWN-FINDING; anything else is a VIOLATION.",
+            "Clean restart only (no SQLite crash consistency); blocks are assembled without the nonce search because the store "
+            "never looks at proof of work.", "DESIGN.md section 4, C08"),
     'C11': (MC, "exhaustive enumeration of all 2-way and 3-way cuts of framed and corrupted streams against a reference framer",
             "116 (quick) / ~300 streams of 1-3 real messages and 30 corruption variants (each magic byte, over-limit and "
             "boundary lengths, short/long lengths, undecodable payloads, truncation); for each: whole, bytewise, every 2-way cut "
@@ -74,6 +84,24 @@ CHECKS = {
             "the reference framer's under every cut.",
             "Payload validity inside a frame is decided by the real message decoders (fragmentation independence, not the "
             "decoders, is under test here).", "DESIGN.md section 4, C11"),
+    'C14': (MC, "explicit-state search per ledger world over wallet states with the full (amount, fee) alphabet at every state; "
+                "reference arithmetic + node validators + reference validator",
+            "Worlds: every assignment of <= 3 (4) unspent outputs of value 1/2/5 to two wallet keys, with/without a foreign "
+            "output and a 10-coin reward, both output orders and both key-dictionary orders, as real validated chains. Per world "
+            "a BFS over (head, record of used outputs, outputs used by successful spends), offering every amount 1..total+1 x "
+            "fee 0..2 at every state, with and without confirming the returned transaction in a block: a returned transaction "
+            "must pass the node's and the reference validation, pay exactly, give exactly the change, use only unused wallet "
+            "outputs; a failure must leave the record unchanged and happen only when unused outputs do not suffice.",
+            "Greedy selection order is whatever the wallet does; only the stated outcome is checked.", "DESIGN.md section 4, C14"),
+    'C15': (MC, "explicit-state search over wallet operation sequences with a reference wallet in lock-step; crash-point "
+                "enumeration of every save (snapshot at every raw write / close / rename)",
+            "BFS to depth 8 (10) over hand-out (two annotations), restore, save, load, dump+load on a 3-key wallet, "
+            "de-duplicated on (wallet content, file text, last key): a key is never handed out twice while unused keys remain "
+            "(also across save/load), load reproduces what was saved, dump+load is the identity; get_balance equals the reference "
+            "total in every reachable unused/annotated partition on three ledger states; for every save executed, and for a "
+            "100 (400)-key wallet crossing the 8 KiB write buffer, every on-disk view at every operation boundary is loaded "
+            "with the real loader and must be the complete old or the complete new wallet.",
+            "Process-crash model (kernel view at syscall boundaries); no power-loss reordering.", "DESIGN.md section 4, C15"),
     'C17': (EX, "exhaustive enumeration of all lists over a small alphabet and all single edits / proof positions per length",
             "All lists over 3 (4) ids up to length 8 (9): commitments pairwise distinct (covers every substitution, reordering, "
             "removal, append, duplication incl. duplicate-last); for every length up to 33 (130) every single edit changes the "
